@@ -89,9 +89,15 @@ def gen_case(rng: random.Random, tier: str, *, fault_free_p=0.1, s2_bias=0.5, en
         route = rng.choice(ALIASES[fam] + [fam]) if fam else own
     else:
         route = rng.choice(EXT_FAMILIES)  # misdirected file: content of format A under the name of format B
+    ole = None
+    if data[:8] == b"\xd0\xcf\x11\xe0\xa1\xb1\x1a\xe1" and ops and rng.random() < 0.4:
+        ed = rng.choice([["trunc", rng.randrange(1 << 30)], ["flip", [[rng.randrange(1 << 30), rng.randrange(8)] for _ in range(rng.choice([1, 3, 16]))]],
+                         ["u16", rng.randrange(1 << 30), rng.choice(blockdev.BIG)], ["u32", rng.randrange(1 << 30), rng.choice(blockdev.BIG)], ["empty"]])
+        ole = [rng.randrange(1, 7), ed]
+        ops = []  # the container shell stays valid: only the stream read is faulted
     case_style = rng.choice(["lower", "lower", "upper", "mixed"])
     route_cs = {"lower": route, "upper": route.upper(), "mixed": "".join(c.upper() if i % 2 else c for i, c in enumerate(route))}[case_style]
-    return {"doc": name, "ops": ops, "entry": entry, "route": route_cs, "pos": rng.choice([0, 0, 0, 1, 7, 512, 10 ** 9]),
+    return {"doc": name, "ops": ops, "ole": ole, "entry": entry, "route": route_cs, "pos": rng.choice([0, 0, 0, 1, 7, 512, 10 ** 9]),
             "stem": rng.choice(["f", "ünï cödé", "a.b", "UP", "x y"]), "flags": rng.choice([[], [], ["--json"], ["--json-unit"], ["--json", "--binary"],
                                                                                                   ["--json-unit", "--binary"]]),
             "path_kind": rng.choice(["none", "relative", "absolute_missing", "unicode", "member_form", "noext", "trailing_dot"])}
@@ -168,10 +174,50 @@ class Outcome:
         self.outer = []  # e-mail results when entry == attachment
 
 
+class _FaultedOleStream(io.BytesIO):
+    def __init__(self, data: bytes):
+        super().__init__(data)
+        self.size = len(data)
+
+
+def _install_ole_fault(spec, fired):
+    """S2 for OLE2 containers: the container shell stays valid, the bytes returned by the k-th openstream() are altered"""
+    import olefile
+    real = olefile.OleFileIO.openstream
+    n = [0]
+
+    def openstream(self, filename):
+        st = real(self, filename)
+        n[0] += 1
+        if n[0] == spec[0]:
+            try:
+                data = st.read()
+            except Exception:
+                return real(self, filename)
+            fired.append(filename if isinstance(filename, str) else "/".join(filename))
+            return _FaultedOleStream(blockdev.edit_member(data, spec[1]))
+        return st
+
+    olefile.OleFileIO.openstream = openstream
+    return lambda: setattr(olefile.OleFileIO, "openstream", real)
+
+
 def execute(case: dict, sbx_dir: str) -> Outcome:
     import sharepoint2text
     from sharepoint2text.parsing.router import get_extractor
     out = Outcome()
+    out.ole_fired = []
+    undo = _install_ole_fault(case["ole"], out.ole_fired) if case.get("ole") else None
+    try:
+        return _execute(case, sbx_dir, out)
+    finally:
+        if undo:
+            undo()
+
+
+def _execute(case: dict, sbx_dir: str, out: "Outcome") -> "Outcome":
+    import sharepoint2text
+    from sharepoint2text.parsing.router import get_extractor
     data = materialise(case)
     fname = f"{case['stem']}.{case['route']}"
     entry = case["entry"]
